@@ -821,6 +821,12 @@ func c01Programs() []c01Prog {
 		{".m | to_entries | from_entries", c01Pipe(m, c01Pipe(c01ToEntries, c01FromEntries))}, {".m | with_entries(.)", c01Pipe(m, c01Pipe(c01ToEntries, c01FromEntries))},
 		{".m | with_entries(select(.value > 1))", c01Pipe(m, c01Pipe(c01ToEntries, c01Pipe(c01MapF(c01Select(c01Bin(c01Key("value"), one, c01Cmp(">")))), c01FromEntries)))},
 		{"[.a[], .b] | unique | length", c01Pipe(c01Collect(c01Union(ai, b)), c01Pipe(c01Unique, c01Length))}, {".a | reverse | .[0]", c01Pipe(a, c01Pipe(c01Reverse, c01Index(0)))},
+		// select whose condition yields NO result for some of the current nodes (a splat of an empty sequence, a nested
+		// select that drops everything): such a node is not selected, whatever the verdict on its neighbours was
+		{"(.a, .e) | select(.[] == 1)", c01Pipe(c01Union(a, c01Key("e")), c01Select(c01Bin(c01Splat, one, c01Cmp("=="))))},
+		{"(.e, .a, .e) | select(.[] == 1)", c01Pipe(c01Union(c01Key("e"), c01Union(a, c01Key("e"))), c01Select(c01Bin(c01Splat, one, c01Cmp("=="))))},
+		{"[.a, .e, .m, .e] | map(select(.[] > 0))", c01Pipe(c01Collect(c01Union(a, c01Union(c01Key("e"), c01Union(m, c01Key("e"))))), c01MapF(c01Select(c01Bin(c01Splat, c01Lit(c01Int(0)), c01Cmp(">")))))},
+		{"(.m, .a, .e) | select(.[] | select(. == 1))", c01Pipe(c01Union(m, c01Union(a, c01Key("e"))), c01Select(c01Pipe(c01Splat, c01Select(c01Bin(c01Self, one, c01Cmp("=="))))))},
 	}
 }
 
